@@ -87,7 +87,9 @@ func runCRDTDecision(c *core.Ctx) {
 			return isLit
 		}, bools: []string{"it.Done()", "ok"}, ints: map[string]string{"v": "", "val": ""},
 			ref: func(a dtAtoms) bool { return !a.B("it.Done()") && (!a.B("ok") || a.I("v") < a.I("val")) }},
-		{fn: "GCounter.Write", key: "absent-counts-zero", why: "a node that has not counted yet starts from zero", find: storeLocal("oldValue", ""), bools: []string{"ok"}, ref: func(a dtAtoms) bool { return !a.B("ok") }},
+		{fn: "GCounter.Write", key: "absent-counts-zero", why: "a node that has not counted yet starts from zero", find: storeLocal("oldValue", ""), bools: []string{"ok"}, ref: func(a dtAtoms) bool { return !a.B("ok") },
+			// ... or the count is read through getOrDefault (which has its own row) on every path
+			alts: []dtRow{{find: callsMethodNamed("getOrDefault"), ref: func(a dtAtoms) bool { return true }}}},
 		{fn: "GCounter.getOrDefault", key: "absent-reads-zero", why: "an absent component reads 0", find: func(info *types.Info, n ast.Node) bool {
 			r, ok := n.(*ast.ReturnStmt)
 			if !ok || len(r.Results) != 1 {
@@ -133,38 +135,44 @@ func runCRDTDecision(c *core.Ctx) {
 		{fn: "AWORSet.Write", key: "remove-clears-add", why: "a removal that builds on an observed clock supersedes the add", find: storeField("addMap", "Delete"),
 			ints: map[string]string{"cmd.AsNumber()": ""}, bools: []string{"addOk", "remOk"},
 			ref: func(a dtAtoms) bool { return a.I("cmd.AsNumber()") == K(a, "remOp") && (a.B("addOk") || a.B("remOk")) }},
-		{fn: ".mergeKeys", key: "merges-common-keys", why: "a key present on both sides gets the merged clock, a key only on the other side is copied", find: func(info *types.Info, n ast.Node) bool {
-			as, ok := n.(*ast.AssignStmt)
-			if !ok || len(as.Lhs) != 1 || len(as.Rhs) != 1 || as.Tok != token.ASSIGN {
-				return false
-			}
-			call, ok := an.Unparen(as.Rhs[0]).(*ast.CallExpr)
-			if !ok || len(call.Args) != 2 {
-				return false
-			}
-			_, isCall := an.Unparen(call.Args[1]).(*ast.CallExpr)
-			return isCall
-		}, bools: []string{"i.Done()", "accOk"}, ref: func(a dtAtoms) bool { return !a.B("i.Done()") && a.B("accOk") }},
-		{fn: ".mergeKeys", key: "copies-new-keys", why: "a key only the other side has is copied with its clock", find: func(info *types.Info, n ast.Node) bool {
-			as, ok := n.(*ast.AssignStmt)
-			if !ok || len(as.Lhs) != 1 || len(as.Rhs) != 1 || as.Tok != token.ASSIGN {
-				return false
-			}
-			call, ok := an.Unparen(as.Rhs[0]).(*ast.CallExpr)
-			if !ok || len(call.Args) != 2 {
-				return false
-			}
-			_, isIdent := an.Unparen(call.Args[1]).(*ast.Ident)
-			return isIdent
-		}, bools: []string{"i.Done()", "accOk"}, ref: func(a dtAtoms) bool { return !a.B("i.Done()") && !a.B("accOk") }},
+		{fn: ".mergeKeys", key: "merges-common-keys", why: "a key present on both sides gets the merged clock, a key only on the other side is copied", find: accSet,
+			when: func(resolve func(ast.Expr) ast.Expr, info *types.Info, n ast.Node) bool {
+				_, isCall := an.Unparen(resolve(accSetArg(n))).(*ast.CallExpr)
+				return isCall
+			}, bools: []string{"i.Done()", "accOk"}, ref: func(a dtAtoms) bool { return !a.B("i.Done()") && a.B("accOk") }},
+		{fn: ".mergeKeys", key: "copies-new-keys", why: "a key only the other side has is copied with its clock", find: accSet,
+			when: func(resolve func(ast.Expr) ast.Expr, info *types.Info, n ast.Node) bool {
+				_, isIdent := an.Unparen(resolve(accSetArg(n))).(*ast.Ident)
+				return isIdent
+			}, bools: []string{"i.Done()", "accOk"}, ref: func(a dtAtoms) bool { return !a.B("i.Done()") && !a.B("accOk") }},
 		{fn: "GCounter.Write", key: "adds-increment", why: "a write adds its argument to the node's own count", find: func(info *types.Info, n ast.Node) bool {
 			as, ok := n.(*ast.AssignStmt)
 			return ok && as.Tok == token.DEFINE && len(as.Lhs) == 1 && an.ObjOf(info, as.Lhs[0]) != nil && an.ObjOf(info, as.Lhs[0]).Name() == "newValue"
 		}, valueOf: func(info *types.Info, n ast.Node) ast.Expr { return n.(*ast.AssignStmt).Rhs[0] },
-			ints: map[string]string{"oldValue": "", "value.AsNumber()": ""}, bools: []string{"ok"}, refInt: func(a dtAtoms) int64 { return a.I("oldValue") + a.I("value.AsNumber()") }},
+			ints: map[string]string{"oldValue": "", "value.AsNumber()": ""}, bools: []string{"ok"}, refInt: func(a dtAtoms) int64 { return a.I("oldValue") + a.I("value.AsNumber()") },
+			// ... or, without the named intermediate: the count stored is what getOrDefault read plus the argument
+			alts: []dtRow{{find: func(info *types.Info, n ast.Node) bool {
+				call, ok := n.(*ast.CallExpr)
+				if !ok {
+					return false
+				}
+				f := an.CalleeFunc(info, call)
+				return f != nil && f.Name() == "Set" && len(call.Args) == 2
+			}, valueOf: func(info *types.Info, n ast.Node) ast.Expr { return n.(*ast.CallExpr).Args[1] },
+				ints:   map[string]string{"$.getOrDefault(id)": "", "value.AsNumber()": ""},
+				refInt: func(a dtAtoms) int64 { return a.I("$.getOrDefault(id)") + a.I("value.AsNumber()") }}}},
 		// LWWSet
-		{fn: "LWWSet.isIn", key: "absent-add", why: "never added: not in the set", find: retBool(false), occ: true, bools: []string{"ok#1", "ok#2"}, ref: func(a dtAtoms) bool { return !a.B("ok#1") }},
-		{fn: "LWWSet.isIn", key: "never-removed", why: "added and never removed: in the set", find: retBool(true), occ: true, bools: []string{"ok#1", "ok#2"}, ref: func(a dtAtoms) bool { return a.B("ok#1") && !a.B("ok#2") }},
+		{fn: "LWWSet.isIn", key: "absent-add", why: "never added: not in the set", find: retBool(false), occ: true, bools: []string{"ok#1", "ok#2"}, ref: func(a dtAtoms) bool { return !a.B("ok#1") },
+			// ... or, over the whole result: not in the set iff never added, or removed strictly later than added
+			alts: []dtRow{{returns: &isFalse, occ: true, bools: []string{"ok#1", "ok#2", "addTimeStamp.Before(remTimeStamp)"},
+				ref: func(a dtAtoms) bool {
+					return !a.B("ok#1") || (a.B("ok#2") && a.B("addTimeStamp.Before(remTimeStamp)"))
+				}}}},
+		{fn: "LWWSet.isIn", key: "never-removed", why: "added and never removed: in the set", find: retBool(true), occ: true, bools: []string{"ok#1", "ok#2"}, ref: func(a dtAtoms) bool { return a.B("ok#1") && !a.B("ok#2") },
+			alts: []dtRow{{returns: &isTrue, occ: true, bools: []string{"ok#1", "ok#2", "addTimeStamp.Before(remTimeStamp)"},
+				ref: func(a dtAtoms) bool {
+					return a.B("ok#1") && (!a.B("ok#2") || !a.B("addTimeStamp.Before(remTimeStamp)"))
+				}}}},
 		{fn: "LWWSet.Read", key: "lists-members", why: "Read lists exactly the elements that are in", find: builderSet("builder"), bools: []string{"it.Done()", "$.isIn(id)"},
 			ref: func(a dtAtoms) bool { return !a.B("it.Done()") && a.B("$.isIn(id)") }},
 		{fn: "LWWSet.Merge", key: "add-timestamps-take-later", occ: true, why: "the merged add timestamp is the later one", find: storeField("addSet", "Set"),
@@ -180,4 +188,36 @@ func runCRDTDecision(c *core.Ctx) {
 	}
 	_ = strings.TrimSpace
 	runDecisionRows(c, e, an.PkgResources, "", rows)
+}
+
+// callsMethodNamed: n is a call of a method with this name.
+func callsMethodNamed(name string) func(info *types.Info, n ast.Node) bool {
+	return func(info *types.Info, n ast.Node) bool {
+		call, ok := n.(*ast.CallExpr)
+		if !ok {
+			return false
+		}
+		f := an.CalleeFunc(info, call)
+		return f != nil && f.Name() == name && f.Type().(*types.Signature).Recv() != nil
+	}
+}
+
+var isTrue, isFalse = true, false
+
+// accSet: `x = y.Set(k, v)` (the accumulating store of a merge loop); accSetArg is its v.
+func accSet(info *types.Info, n ast.Node) bool {
+	as, ok := n.(*ast.AssignStmt)
+	if !ok || len(as.Lhs) != 1 || len(as.Rhs) != 1 || as.Tok != token.ASSIGN {
+		return false
+	}
+	call, ok := an.Unparen(as.Rhs[0]).(*ast.CallExpr)
+	if !ok || len(call.Args) != 2 {
+		return false
+	}
+	sel, ok := an.Unparen(call.Fun).(*ast.SelectorExpr)
+	return ok && sel.Sel.Name == "Set"
+}
+
+func accSetArg(n ast.Node) ast.Expr {
+	return an.Unparen(n.(*ast.AssignStmt).Rhs[0]).(*ast.CallExpr).Args[1]
 }
